@@ -237,6 +237,12 @@ func c06Scenarios(tier string) []e1lib.Scenario {
 						for _, s := range []int{0, 1, 2} {
 							c.Stop, c.CancelAfter = s, 0
 							add(c)
+							if mode == "try" && m != 0 && cancel {
+								// nobody reads the error channel: the generator may wait with its error, the cancel must still end it
+								c.ErrRd = "none"
+								add(c)
+								c.ErrRd = "reader"
+							}
 						}
 						if !cancel {
 							for _, ca := range []int{1, 2} {
